@@ -2,6 +2,7 @@ package smt
 
 import (
 	"bufio"
+	"os"
 	"fmt"
 	"io"
 	"os/exec"
@@ -217,6 +218,9 @@ func (s *Solver) Model(vars []*Term) map[string]uint64 {
 		sb.WriteString(" ")
 	}
 	txt := sb.String()
+	if os.Getenv("GOSMT_DBGMODEL") != "" && !strings.Contains(txt, "#") {
+		fmt.Fprintf(os.Stderr, "Model: odd get-value answer for %d names: %q\n", len(names), txt)
+	}
 	// the answer is ((name value) (name value) ...); names may or may not be |quoted|
 	i := strings.Index(txt, "(")
 	if i < 0 {
